@@ -249,3 +249,21 @@ package api
 //@   ensures [other-records-untouched] forall g *GlobalPinInfo :: g != gpi ==> *g == old(*g)
 //@   ensures [existing-reports-untouched] forall q *PinInfoShort :: !fresh(q) ==> *q == old(*q)
 //@   modifies heap(GlobalPinInfo), heap(PinInfoShort)
+
+// a pin built from a CID and options: that CID, exactly those options, a data pin without allocations, the depth the
+// mode calls for (direct: 0, recursive: -1)
+//@ func (pm PinMode) ToPinDepth
+//@   property C04 C08
+//@   ensures res == ite(pm == PinModeDirect, 0, -1)
+//@   modifies nothing
+//@ func PinCid
+//@   property C04 C08
+//@   ensures res != nil && fresh(res) && res.Cid == c && res.Type == DataType && len(res.Allocations) == 0 && res.MaxDepth == -1 && res.Reference == nil
+//@   ensures [existing-pins-untouched] forall q *Pin :: !fresh(q) ==> *q == old(*q)
+//@   modifies heap(Pin)
+//@ func PinWithOpts
+//@   property C04 C08
+//@   ensures res != nil && fresh(res) && res.Cid == c && res.PinOptions == opts && res.Type == DataType && len(res.Allocations) == 0 && res.Reference == nil
+//@   ensures [depth-follows-mode] res.MaxDepth == ite(opts.Mode == PinModeDirect, 0, -1)
+//@   ensures [existing-pins-untouched] forall q *Pin :: !fresh(q) ==> *q == old(*q)
+//@   modifies heap(Pin)
